@@ -73,6 +73,9 @@ sha256 = z3.Function("sha256", BytesS, BytesS)
 py_id = z3.Function("py_id", Int, Int)                              # id(obj) of a reference
 
 
+key_trig = z3.Function("key_trig", Val, z3.BoolSort())          # instantiation trigger for quantifiers over dict keys (always true)
+
+
 def path_axioms():
     """Facts about pathlib used by the contracts (assumed; listed in the trusted base)."""
     p, q = z3.Const("p!ax", PathS), z3.Const("q!ax", PathS)
@@ -106,3 +109,13 @@ def fresh_val(prefix="v"):
 
 def fresh_int(prefix="n"):
     return z3.Int(fresh_name(prefix))
+
+
+def qforall(vs, body, patterns=None):
+    """ForAll with patterns when z3 accepts them (terms containing ite are not valid patterns)"""
+    if patterns:
+        try:
+            return z3.ForAll(vs, body, patterns=patterns)
+        except z3.Z3Exception:
+            pass
+    return z3.ForAll(vs, body)
